@@ -218,7 +218,7 @@ def gains_bounded_instance():
                                      ComplexAngularCentralGaussianTrainer, ComplexWatsonTrainer, VonMisesFisherTrainer)
 
     def make(B):
-        return {'which': B.choose('which', ['cacgmm', 'cacgmm-ll', 'cwmm', 'cwmm-fit_predict', 'cbmm', 'vmfmm', 'gcacgmm', 'vmfcacgmm', 'cacg', 'watson', 'vmf']),
+        return {'which': B.choose('which', ['cacgmm', 'cacgmm-ll', 'cwmm', 'cwmm-fit_predict', 'cbmm', 'vmfmm', 'gcacgmm', 'vmfcacgmm', 'cacg', 'watson', 'vmf', 'bingham']),
                 'range': B.choose('range', [(1e-3, 1e3), (1e-100, 1e100), (1e-100, 1e-90), (1e90, 1e100), (1 - 9e-6, 1 + 9e-6)]),
                 'it': B.choose('it', [1, 3, 8]), 'seed': B.choose('seed', list(range(3000))), 'd': B.given('d', np.zeros(1)),
                 'trainer': B.choose('trainer', ['fresh', 'dimension', 'reused'])}
@@ -294,6 +294,10 @@ def gains_bounded_instance():
             if which == 'cacg':
                 m = ComplexAngularCentralGaussianTrainer().fit(yy, iterations=it)        # (the stand-alone cACG trainer rejects a saliency explicitly)
                 return [m.covariance_eigenvalues, m.covariance, m.log_pdf(yy)]
+            if which == 'bingham':
+                from pb_bss.distribution.complex_bingham import ComplexBinghamTrainer
+                m = ComplexBinghamTrainer(max_concentration=500.0).fit(yy[0, :12], saliency=None if sal is None else sal[0, :12])
+                return [np.asarray(m.covariance), np.asarray(m.covariance_eigenvalues), np.asarray(m.log_pdf(yy[0, :12] / np.linalg.norm(yy[0, :12], axis=-1, keepdims=True)))]
             if which == 'watson':
                 m = ComplexWatsonTrainer().fit(yy, saliency=sal)
                 return [np.asarray(m.concentration), np.abs(m.mode)]
